@@ -104,7 +104,9 @@ def c09_stages(tier):
 
 
 def c10_stages(tier):
-    return [ptfs_stage("C10", 480 if tier == "quick" else 12_000, timeout=3000, crash_is_violation=True)]
+    # model-vs-kernel: the reference union model against the kernel's own overlayfs on the same universes (oracle self-check, crate not involved)
+    return [ptfs_stage("C10", 480 if tier == "quick" else 12_000, timeout=3600, crash_is_violation=True),
+            ptfs_stage("C10", 160 if tier == "quick" else 4_000, name="model-vs-kernel", core=False, timeout=3600, args={"kernel": 1})]
 
 
 def c11_stages(tier):
@@ -358,11 +360,13 @@ PROPS = {
                       "whole visible tree (names, types, permission bits, sizes, contents, link targets) must equal the model, the outcome class must equal the "
                       "reference wherever the reference is certain, every lower layer must be byte-for-byte (names, modes, contents, xattrs) what it was, and in the "
                       "universes without an upper layer every modifying operation must fail and leave the tree unchanged.",
-        "level_note": "The reference model is mine (overlayfs rules as stated in the property); a mounted kernel overlay is not used as the oracle. rename is outside the "
-                      "property's operation set and not driven. Outcomes are compared by class (ok / EEXIST / ENOENT / ENOTEMPTY / ENOTDIR / EISDIR); other errno values "
+        "level_note": "The reference model is mine (overlayfs rules as stated in the property). Stage model-vs-kernel validates that model, not the crate: the same universes "
+                      "and operation sequences run against a kernel `mount -t overlay` with plain system calls and the kernel's view and outcome classes must equal the model's "
+                      "(disagreements are INCONCLUSIVE model-vs-kernel:*, counters kernel:* in the evidence; one kernel artefact is excluded: rmdir of an unmerged upper directory "
+                      "holding only whiteouts). rename is outside the property's operation set and not driven. Outcomes are compared by class (ok / EEXIST / ENOENT / ENOTEMPTY / ENOTDIR / EISDIR); other errno values "
                       "are not asserted.",
         "rule": "evaluations = operations applied (each followed by a full-tree comparison); distinct = (operation, reference outcome class, overlay outcome class, upper present, number of lowers).",
-        "assumptions": ["reference union model implements the overlayfs rules of the statement", "runs as root on a filesystem supporting trusted.* xattrs and 0:0 char devices"],
+        "assumptions": ["reference union model implements the overlayfs rules of the statement (cross-checked against the kernel's overlayfs by stage model-vs-kernel)", "runs as root on a filesystem supporting trusted.* xattrs and 0:0 char devices"],
     },
     "C11": {
         "level": "exploration",
